@@ -24,6 +24,11 @@ fn main() {
             d.space::<4>(4, maxj, &modes);
             d.space::<8>(4, maxj, &modes);
         }
+        if d.cx.shard.0 == 0 && d.cx.only_hist.is_none() && d.cx.prop == "C13" {
+            d.zst::<1>();
+            d.zst::<2>();
+            d.zst::<3>();
+        }
         d.cx.rep.exhaustive = d.cx.only_hist.is_none();
         if random > 0 {
             d.random::<8>(random / 2, &modes);
